@@ -143,7 +143,7 @@ func RunC11T(r *Run) {
 			k := GetFault(1 + r.Choose("fault-kind", 4))
 			st.GetFaults[h] = k
 			if k == FaultCorrupt {
-				st.Alt[h] = garbageCBOR
+				st.Alt[h] = w.corruptAlt(h)
 			}
 		}
 		for h, k := range st.GetFaults {
